@@ -99,7 +99,7 @@ static bool runScenario(Scenario& sc, Rng& r, bool stress, const std::string& ta
   bus.echoCorruptAt = sc.echoCorruptAt;
   bus.attach();
   bus.autoSyn = true;
-  if (!bus.enhanced) bus.gluePct = r.pick(std::vector<int>{0, 0, 30, 100});      // a SYN may arrive together with the symbols that follow it
+  bus.gluePct = r.pick(std::vector<int>{0, 0, 30, 100});      // a SYN may arrive together with the symbols that follow it
   Item s; s.kind = Item::SYN;
   for (int i = 0; i < 4; i++) bus.script.push_back(s);
   for (auto& it : sc.items) bus.script.push_back(it);
